@@ -166,6 +166,16 @@ class Runner:
                     else:
                         new[h] = _Dead()
                 self.ents = new
+            elif kind == "dmgowner":
+                req = f"dmgowner|{op[1]}|{'-' if op[2] is None else op[2]}"
+                self.ents[op[1]].dxf.owner = None if op[2] is None else "%X" % op[2]
+            elif kind == "dmgappend":
+                req = f"dmgappend|{op[1]}|{op[2]}"
+                self.layout_of(op[1]).entity_space.add(self.ents[op[2]])
+            elif kind == "auditfix":
+                req = "audit"
+                a = doc.audit()
+                return req + f"|{self.seed()}", f"ok:{len(a.fixes)}"
             elif kind in RICH_OPS:
                 req = "rich:" + kind
                 self.apply_rich(op)
@@ -318,7 +328,8 @@ class Runner:
                 lay = e.get_layout()
             except Exception as ex:  # noqa
                 lay = "EXC" + type(ex).__name__
-            layk = "-" if lay is None else (lay if isinstance(lay, str) else str(hx(lay.block_record_handle)))
+            # a dangling owner makes get_layout() raise KeyError instead of returning None: shown as "?"
+            layk = "-" if lay is None else ("?" if isinstance(lay, str) else str(hx(lay.block_record_handle)))
             es.append(f"{h}:{'-' if owner is None else hx(owner)}:{int(indb)}:{layk}")
         bl = sorted((doc.blocks.key(b.name), hx(b.block_record_handle)) for b in doc.blocks)
         bs = " ".join(f"{enc(n)}:{k}" for n, k in bl)
@@ -354,7 +365,13 @@ def gen_rich(rng):
                 blocks = [b.name for b in r.doc.blocks if not b.name.startswith("*")]
                 if not blocks:
                     return ("newblock", op[2])
-                return ("ins", op[1], rng.choice(blocks))
+                # block references only in layouts: a block that (transitively) contains itself is invalid DXF
+                return ("ins", rng.choice(layout_keys(r)), rng.choice(blocks))
+            if op[0] in ("move", "addex", "copy"):
+                e = r.ents[op[2] if op[0] != "copy" else op[1]]
+                if e.is_alive and e.dxftype() == "INSERT":
+                    tgt = {"move": 3, "addex": 1, "copy": 2}[op[0]]
+                    op = op[:tgt] + (rng.choice(layout_keys(r)),) + op[tgt + 1:]
             return op
         if x < 0.52:
             return ("addpoly", rng.choice(ks))
@@ -366,7 +383,7 @@ def gen_rich(rng):
             blocks = [b.name for b in r.doc.blocks if not b.name.startswith("*")]
             if not blocks:
                 return ("newblock", "B1")
-            return ("insattr", rng.choice(ks), rng.choice(blocks))
+            return ("insattr", rng.choice(layout_keys(r)), rng.choice(blocks))
         if x < 0.78:
             return ("group", rng.sample(linked, min(len(linked), rng.randint(1, 3))))
         if x < 0.82:
@@ -378,7 +395,9 @@ def gen_rich(rng):
         if x < 0.90:
             return ("explode", rng.choice(linked))
         if x < 0.94:
-            return ("copylinked", rng.choice(live), rng.choice(ks))
+            h = rng.choice(live)
+            tgt = layout_keys(r) if r.ents[h].dxftype() == "INSERT" else ks
+            return ("copylinked", h, rng.choice(tgt))
         if x < 0.96:
             return ("audit",)
         if x < 0.98:
@@ -386,6 +405,10 @@ def gen_rich(rng):
         return ("newlayer_used", rng.choice(ks), rng.choice(LAYERS))
 
     return choose
+
+
+def layout_keys(r: Runner):
+    return sorted(hx(l.block_record_handle) for l in r.doc.layouts)
 
 
 class _Dead:
